@@ -525,6 +525,10 @@ pub mod core {
 #[cfg(feature = "python")]
 mod py;
 
+/// Verification hooks (feature `verif-hooks`): wrappers around crate-private functions
+#[cfg(feature = "verif-hooks")]
+pub mod verif_hooks;
+
 #[cfg(test)]
 mod tests {
     pub fn init() {
